@@ -80,6 +80,11 @@ class World:
             self.trace.append(k)
             return
         self.trace.append(k)
+        if k == 'grow':
+            # many appends in one step (no comparison in between): brings a list near a compact-size edge (253 entries)
+            for i in range(op[3]):
+                self.apply(['in_add', op[1], ['%064x' % (i + 1), i, '', i]] if op[2] == 'in' else ['out_add', op[1], [i, '51']])
+            return
         if k in ('set', 'in_set', 'out_set', 'in_add', 'in_del', 'in_rep', 'out_add', 'out_del', 'out_rep', 'wit', 'wit_slot'):
             e = self.pick(op[1], ('mtx',))
             t, m = e['obj'], e['model']
@@ -408,6 +413,16 @@ def _immutables():
     return [op, txin, txout, sw, iw, tw, tx, hdr, blk]
 
 
+def _immut_value(case, o, name):
+    """the value a caller tries to assign: a scalar, or one of the container kinds the classes themselves hold"""
+    vk = case.get('value_kind')
+    if vk is None:
+        return case.get('value', 1)
+    if vk == 'same':
+        return getattr(o, name, None)
+    return {'tuple0': (), 'tuple1': (1,), 'tuple2': (1, 2), 'list': [], 'bytes': b'', 'str': '%s %d', 'dict': {}}[vk]
+
+
 def check_immut(case):
     objs = _immutables()
     n = 0
@@ -422,7 +437,7 @@ def check_immut(case):
             for action in ('set', 'del'):
                 try:
                     if action == 'set':
-                        setattr(o, name, case.get('value', 1))
+                        setattr(o, name, _immut_value(case, o, name))
                     else:
                         delattr(o, name)
                 except AttributeError:
@@ -650,7 +665,12 @@ def t_exhaustive(ctx):
     if ctx.shard == 0:
         ctx.run({'kind': 'immut', 'value': 1})
         ctx.run({'kind': 'immut', 'value': None})
+        for vk in ('tuple0', 'tuple1', 'tuple2', 'list', 'bytes', 'str', 'dict', 'same'):
+            ctx.run({'kind': 'immut', 'value_kind': vk})
         ctx.run({'kind': 'pickled'})
+        for side, add, rem in (('in', ['in_add', 0, IN_A], ['in_del', 0, 0]), ('out', ['out_add', 0, OUT_A], ['out_del', 0, 0])):
+            ctx.run({'ops': [['grow', 0, side, 250]] + [add, ['ids', 0]] * 5 + [['snap', 0, 'from_tx'], rem] * 4 + [['ids', 0], ['copy', 0]]})
+        ctx.exhaustive.append('input and output lists edited through 251..256 entries (the 0xfc/0xfd compact-size edge), identifiers compared after every edit')
         ctx.exhaustive.append('setattr/delattr on every slot of every immutable class')
 
 
